@@ -70,6 +70,7 @@ pub fn lookup(name: &str) -> Option<(&'static str, ScenFn)> {
         "frames" => (crate::frames::FRAMES_RULE, frames as ScenFn),
         "gate" => (crate::scen_gate::GATE_RULE, crate::scen_gate::gate as ScenFn),
         "dgq" => (crate::scen_dgram::DGQ_RULE, crate::scen_dgram::dgq as ScenFn),
+        "zrtt2" => (crate::scen_zrtt2::ZRTT2_RULE, crate::scen_zrtt2::zrtt2 as ScenFn),
         "multi" => (crate::scen_multi::MULTI_RULE, crate::scen_multi::multi as ScenFn),
         "closedinj" => (crate::scen_conn::CLOSEDINJ_RULE, crate::scen_conn::closedinj as ScenFn),
         "offpath" => (crate::scen_conn::OFFPATH_RULE, crate::scen_conn::offpath as ScenFn),
